@@ -267,6 +267,18 @@ def run_synthetic(case, ctx):
         o = OMS(oms_id=k, el_id_list=[], el_list=[])
         o.update_spectrum(f_min, f_max, existing_spectrum=bm)
         oms_list.append(o)
+    tight = rng.random() < 0.1
+    if tight:
+        # one free window only, the same on every OMS: a request that fixes a slot filling it and a second width for
+        # which nothing is left must be blocked (the fixed width is neither dropped nor squeezed in)
+        t_per_m = 4
+        t_big = t_per_m * rng.randint(1, 3)
+        w0 = n_lo + rng.randint(2, max(2, (n_hi - n_lo) - 2 * t_big - 2))
+        for o in oms_list:
+            bm = [UNU] * (n_hi - n_lo + 1)
+            for i in range(w0 - n_lo, w0 - n_lo + 2 * t_big):
+                bm[i] = FREE
+            o.update_spectrum(f_min, f_max, existing_spectrum=bm)
     model = Model(oms_list)
     hist = []
     n_req = rng.randint(1, 40)
@@ -318,10 +330,17 @@ def run_synthetic(case, ctx):
             taken = sorted(set().union(*[model.occupied[2 * k] for k in fwd]))
             n2 = G.pick(rng, taken) if taken else min(cn + 3 * need, model.hi)
             slots = [(cn, need + per_m), (n2, per_m)]
+            if rng.random() < 0.4:
+                # the second slot fixes its width only, and so large that no window of that width exists on the path
+                slots = [(cn, need + per_m), (None, max(per_m, (len(model.index) // 2 // per_m) * per_m))]
         elif kind == 'multi-free-tail':
             slots = [(cn, G.pick(rng, [per_m, need, need + per_m, 2 * need])), (None, None)]
         else:
             slots = [(cn, max(1, need - per_m))] if nb_wl > 1 else [(cn, max(1, per_m - 1))]
+        if tight and r == 0:
+            spacing, per_m, nb_wl, kind = 50e9, t_per_m, 1, 'tight-window'
+            need = per_m
+            slots = [(w0 + t_big, t_big), (None, G.pick(rng, [per_m, per_m, 2 * per_m]))]
         rq = make_req(r, slots, spacing, nb_wl * 100e9)
         oms_ids = set(build_path_oms_id_list(path + rpath))
         if batched:
